@@ -77,6 +77,13 @@ func (l *RecLog) Append(p *packet.Publish) error {
 	return err
 }
 
+// Calls returns the number of Append calls started so far (returned or not).
+func (l *RecLog) Calls() int {
+	l.mu.Lock()
+	defer l.mu.Unlock()
+	return l.calls
+}
+
 func (l *RecLog) Records() []AppendRecord {
 	l.mu.Lock()
 	defer l.mu.Unlock()
